@@ -48,6 +48,11 @@ class SubCtx(common.CheckCtx):
         self.pending = []
         self.only = only
 
+    def add_lemma(self, name, verdict, **kw):
+        d = {"name": name, "verdict": verdict}
+        d.update(kw)
+        self.lemmas.append(d)          # printed by the parent when merged
+
     def report_violation(self, what, witness):
         self.pending.append(("violation", what, witness))
 
@@ -108,7 +113,7 @@ def merge(ctx, d):
 def run_parallel(ctx, jobs, tv_ops, procs=None):
     """jobs: list of (function name in this module, args tuple).  Lifts once, validates the translator, then runs the
     lemmas in worker processes (fork: the lifted program is inherited) and merges their evidence into ctx."""
-    get_prog(ctx)
+    tv._PROG = get_prog(ctx)          # before the fork: workers inherit the lifted program
     procs = procs or min(16, os.cpu_count() or 1)
     mp = multiprocessing.get_context("fork")
     with mp.Pool(procs) as pool:
@@ -918,6 +923,8 @@ def make_hooks(fam, P, consts512=None):
         st.events.append(("flat", base, mask, idx, car, pos))
         ex.oblige(st, "pre", z3.ULE(idx, h_flat.max_index), "A6 precondition: index <= %d at the flatten_bits call" % h_flat.max_index, ins)
         i1, c1, p1 = P.FLAT(mask, idx, car, pos)
+        if isinstance(P, UFProvider):
+            st.path.append(z3.ULE(i1 - idx, 64))      # A6: at most 64 entries are appended per call
         havoc(st, name)
         st.regs["rbx"], st.regs["rdx"], st.regs["r10"] = i1, c1, p1
 
@@ -995,97 +1002,288 @@ def run_slice(L, fam, S, P):
     return fins
 
 
-def ref_slice_chain(S):
-    """reference composition over the blocks of the slice: list of per-block dicts with the state *after* the block,
-    the flatten event expected for it and the early-exit condition"""
+def ref_slice_chain(S, P):
+    """reference composition over the blocks of the slice (callee functions taken from provider P): list of per-block
+    dicts with the state *after* the block, the flatten event expected for it and the early-exit condition"""
     esc, inq, pp, em = S.esc0, S.inq0, S.pp0, S.E
     idx, car, pos = S.i0, S.c0, S.p0
     nd = S.nd != 0
     out = []
+    facts = []
     nb = S.nblocks + (1 if S.r else 0)
     for k in range(nb):
         if k < S.nblocks:
             Bk = S.bytes[64 * k:64 * k + 64]
             processed = 64 * (k + 1)
         else:
-            Bk = S.bytes[64 * k:64 * k + S.r] + [BV(0x20, 8)] * (64 - S.r)
+            Bk = S.bytes[64 * k:64 * k + S.r] + [BV(0x20, 8)] * (64 - S.r)      # tail = bytes ++ spaces
             processed = S.n
-        oe, esc = refs.OE(Bk, esc)
-        qb, qm, err, inq = refs.QUOTE(Bk, oe, inq)
-        ws, st_ = refs.WSST(Bk)
-        o, pp = refs.FIN(st_, ws, qm, qb, pp)
-        o = z3.If(nd, o | refs.NL(Bk, qm), o)
+        B = simp(join(Bk))
+        oe, esc = P.OE(B, esc)
+        qb, qm, err, inq = P.QUOTE(B, oe, inq)
+        ws, st_ = P.WSST(B)
+        o, pp = P.FIN(st_, ws, qm, qb, pp)
+        o = z3.If(nd, o | P.NL(B, qm), o)
         em = em | err
         ev = (o, idx, car, pos)
-        idx, car, pos = refs.FLAT_summary(o, idx, car, pos)
+        i1, car, pos = P.FLAT(o, idx, car, pos)
+        if isinstance(P, UFProvider):
+            facts.append(z3.ULE(i1 - idx, 64))
+        idx = i1
         out.append({"event": ev, "esc": refs.b2m(esc), "inq": refs.b2all(inq), "pp": refs.b2m(pp), "error_mask": em,
                     "index": idx, "carried": car, "position": pos, "processed": BV(processed, 64), "exit": idx >= BV(S.limit, 64)})
-    return out
+    return out, facts
 
 
 def tails_for(ctx):
     return [0, 1, 31, 32, 33, 63] if ctx.tier == "quick" else list(range(64))
 
 
+def _a7_case(L, family, nb, r, LIMIT, P):
+    """one (blocks, tail) case: returns None if all claims hold, else (what, model, S, obligation-or-None)"""
+    S = SliceSyms(nb, r, LIMIT)
+    fins = run_slice(L, family, S, P)
+    chain, facts = ref_slice_chain(S, P)
+    total = len(chain)
+    pre = S.pre + facts
+    for f in fins:
+        L.paths += 1
+        m = len(f.events)
+        L.reach(f, "b%d.r%d.calls%d" % (nb, r, m), pre)
+        claims = []
+        exp = {}
+        if m == 0:
+            claims.append(z3.BoolVal(total == 0))
+            exp = {"processed": BV(0, 64), "esc": refs.b2m(S.esc0), "inq": refs.b2all(S.inq0), "pp": refs.b2m(S.pp0),
+                   "error_mask": S.E, "index": S.i0, "carried": S.c0, "position": S.p0}
+        elif m > total:
+            claims.append(z3.BoolVal(False))
+        else:
+            exp = chain[m - 1]
+            for j in range(m):
+                _, base, mask, idx, car, pos = f.events[j]
+                e = chain[j]["event"]
+                claims += [mask == e[0], idx == e[1], car == e[2], pos == e[3], base == BV(f.region("indexes").base, 64)]
+            for j in range(m - 1):
+                claims.append(z3.Not(chain[j]["exit"]))
+            if m < total:
+                claims.append(chain[m - 1]["exit"])
+        for k, v in f.out.items():
+            if k in exp:
+                claims.append(v == exp[k])
+        mdl = L.refute(f, z3.And(*claims), pre)
+        if mdl is not None:
+            return ("slice driver (%d blocks + tail %d): result differs from the reference composition" % (nb, r), mdl, S, None)
+        o, mdl = L.bounds(f, pre)
+        if o is not None:
+            return ("slice driver (%d blocks + tail %d): %s" % (nb, r, o.what), mdl, S, o)
+    return None
+
+
 def A7(ctx, family, cases=None):
-    """slice driver (real code) with A1–A6 summaries == reference composition, for blocks in {0,1,2} x tails"""
+    """slice driver (real code) with callee summaries == reference composition, for blocks in {0,1,2} x tails.
+    The callees are uninterpreted functions shared by driver and reference (composition lemma, valid for any callee
+    behaviour); A1–A6 instantiate them with REF-SCAN/FLAT."""
     INDEX_SIZE, LIMIT = go_consts()
     cases = cases or [(nb, r) for nb in (0, 1, 2) for r in tails_for(ctx)]
     L = LemmaRun(ctx, "A7(%s)" % family, bound="blocks in {0,1,2} x tail lengths %s; any carry-in, any index < %d; bytes fully symbolic"
-                 % (sorted(set(r for _, r in cases)), LIMIT))
-    ctx.assume("A7: callees replaced by their A1–A6 reference summaries with clobber sets havoc'd (DESIGN §3.1 cut points)")
+                 % (_ranges(sorted(set(r for _, r in cases))), LIMIT))
+    ctx.assume("A7: callees replaced by summaries per their register contracts with clobber sets havoc'd (DESIGN §3.1 cut points); "
+               "the summaries are uninterpreted functions shared with the reference composition, instantiated by A1–A6; "
+               "flatten_bits appends at most 64 entries (A6)")
     ctx.assume("A7: *index < indexSizeWithSafetyBuffer on entry (findStructuralIndices passes 0 or 1)")
-    ctx.stubs.add("A7: CALL __find_* / __flatten_bits_incremental = verified summaries (A1–A6)")
-    P = RefProvider()
+    ctx.stubs.add("A7/A8: CALL __find_* / __flatten_bits_incremental = summaries justified by A1–A6 (A8: by the pairwise subroutine equivalences)")
     for nb, r in cases:
-        S = SliceSyms(nb, r, LIMIT)
-        fins = run_slice(L, family, S, P)
-        chain = ref_slice_chain(S)
-        total = len(chain)
-        for f in fins:
-            L.paths += 1
-            m = len(f.events)
-            site = "b%d.r%d.calls%d" % (nb, r, m)
-            L.reach(f, site, S.pre)
-            claims = []
-            if m == 0:
-                claims.append(z3.BoolVal(total == 0))
-                exp = {"processed": BV(0, 64), "esc": refs.b2m(S.esc0), "inq": refs.b2all(S.inq0), "pp": refs.b2m(S.pp0),
-                       "error_mask": S.E, "index": S.i0, "carried": S.c0, "position": S.p0}
-            else:
-                if m > total:
-                    claims.append(z3.BoolVal(False))
-                    exp = {}
-                else:
-                    exp = chain[m - 1]
-                    for j in range(m):
-                        _, base, mask, idx, car, pos = f.events[j]
-                        e = chain[j]["event"]
-                        claims += [mask == e[0], idx == e[1], car == e[2], pos == e[3], base == BV(f.region("indexes").base, 64)]
-                    for j in range(m - 1):
-                        claims.append(z3.Not(chain[j]["exit"]))
-                    if m < total:
-                        claims.append(chain[m - 1]["exit"])
-            for k, v in f.out.items():
-                if k in exp:
-                    claims.append(v == exp[k])
-            for c in claims:
-                mdl = L.refute(f, c, S.pre)
-                if mdl is not None:
-                    q = S.model_request(mdl, family)
-                    L.violation("slice driver (%d blocks + tail %d): result differs from the reference composition" % (nb, r),
-                                {"request": _jsonable(q)}, lambda w: replay_vs_ref(q, limit=LIMIT))
-                    return L.finish()
-            o, mdl = L.bounds(f, S.pre)
+        bad = _a7_case(L, family, nb, r, LIMIT, UFProvider())
+        if bad is None:
+            continue
+        # re-derive with the reference instantiated, so that the witness bytes are meaningful and can be replayed
+        bad2 = _a7_case(L, family, nb, r, LIMIT, RefProvider())
+        if bad2 is None:
+            L.notes.append("case (%d,%d): composition with uninterpreted callees fails (%s) but holds with the references instantiated" % (nb, r, bad[0]))
+            continue
+        what, mdl, S, o = bad2
+        q = S.model_request(mdl, family)
+        if o is not None and o.kind == "bounds":
+            ctx.sample({"lemma": L.name, "bounds_violation": o.what, "request": _jsonable(q)})
+            L.verdict = "sat"
+            ctx.report_violation("%s: memory-safety obligation fails: %s (an access outside the extent the Go callers guarantee; "
+                                 "not observable as a functional difference, so not replayed)" % (L.name, what), {"request": _jsonable(q)})
+            return L.finish()
+        if o is not None:
+            raise Inconclusive("%s: summary precondition fails: %s" % (L.name, what))
+        L.violation(what, {"request": _jsonable(q)}, lambda w: replay_vs_ref(q, limit=LIMIT))
+        return L.finish()
+    return L.finish()
+
+
+def _ranges(xs):
+    out, i = [], 0
+    while i < len(xs):
+        j = i
+        while j + 1 < len(xs) and xs[j + 1] == xs[j] + 1:
+            j += 1
+        out.append(str(xs[i]) if i == j else "%d..%d" % (xs[i], xs[j]))
+        i = j + 1
+    return ",".join(out)
+
+
+# ---------------------------------------------------------------------------------------------------------------
+# A8: AVX2 ≡ AVX-512
+
+SUBS = {"A1": "__find_odd_backslash_sequences", "A2": "__find_quote_mask_and_bits", "A3": "__find_whitespace_and_structurals",
+        "A4": "__finalize_structurals", "A5": "__find_newline_delimiters"}
+
+
+def _a8_sub(ctx, key):
+    base = SUBS[key]
+    L = LemmaRun(ctx, "A8.%s" % key, bound="one 64-byte block, all contents, any carry-in; both families on the same symbols")
+    I = sub_inputs(base)
+    r2 = SubRun(L, "avx2", base, I)
+    r5 = SubRun(L, "avx512", base, I)
+    o2, o5 = r2.outputs(), r5.outputs()
+    both = list(r2.st.path) + list(r5.st.path)
+    L.reach(r2.st, "post", r5.st.path)
+    for k in o2:
+        m = L.refute(r2.st, o2[k] == o5[k], r5.st.path)
+        if m is None:
+            continue
+        what = "%s: output %s differs between the AVX2 and AVX-512 kernels" % (base, k)
+        if base == "__finalize_structurals":
+            B, e0, i0, cons = realizable_block_constraints(I)
+            m2 = L.refute(r2.st, o2[k] == o5[k], list(r5.st.path) + cons)
+            if m2 is None:
+                raise Inconclusive(what + " for abstract masks, but no block realises them; not replayable")
+            q = {"op": "block", "buf": block_of(m2, B), "a": [mval(m2, e0), M64 if mval(m2, i0) else 0, 0, mval(m2, I["pp0"])]}
+            L.violation(what, {"request": _jsonable(q)}, lambda w: replay_pair(q, fields=[0, 4]))
+        else:
+            q, _ = sub_request(base, "avx2", I, m)
+            if base == "__find_quote_mask_and_bits":
+                q["a"][2] = 0          # the avx512 wrapper starts from an empty error mask
+            L.violation(what, {"request": _jsonable(q), "avx2": hex(mval(m, o2[k])), "avx512": hex(mval(m, o5[k]))}, lambda w: replay_pair(q))
+        return L.finish()
+    for run in (r2, r5):
+        bad = run.frame()
+        if bad:
+            raise Inconclusive("%s: register contract (DESIGN A.2) violated: %s" % (run.name, "; ".join(bad)))
+        o, m = L.bounds(run.st)
+        if o is not None:
+            raise Inconclusive("%s: memory-safety obligation fails: %s" % (run.name, o.what))
+    return L.finish()
+
+
+def _a8_case(L, nb, r, LIMIT, P):
+    S = SliceSyms(nb, r, LIMIT)
+    f2s = run_slice(L, "avx2", S, P)
+    f5s = run_slice(L, "avx512", S, P)
+    for f in f2s + f5s:
+        o, mdl = L.bounds(f, S.pre)
+        if o is not None:
+            return ("%s (%d blocks + tail %d)" % (o.what, nb, r), mdl, S, o)
+    L.paths += len(f2s) + len(f5s)
+    npairs = 0
+    for f2 in f2s:
+        for f5 in f5s:
+            both = S.pre + list(f5.path)
+            if L.reach(f2, "b%d.r%d.calls%d" % (nb, r, len(f2.events)), both) is None:
+                continue
+            npairs += 1
+            claims = [z3.BoolVal(len(f2.events) == len(f5.events))]
+            for e2, e5 in zip(f2.events, f5.events):
+                # base pointers live in different machine states: compare offsets into the index buffer
+                claims += [e2[2] == e5[2], e2[3] == e5[3], e2[4] == e5[4], e2[5] == e5[5],
+                           e2[1] - BV(f2.region("indexes").base, 64) == e5[1] - BV(f5.region("indexes").base, 64)]
+            for k in f2.out:
+                claims.append(f2.out[k] == f5.out[k])
+            mdl = L.refute(f2, z3.And(*claims), both)
+            if mdl is not None:
+                return ("slice drivers (%d blocks + tail %d): AVX2 and AVX-512 results differ" % (nb, r), mdl, S, None)
+    if npairs == 0:
+        raise Inconclusive("A8: no jointly feasible path pair for case (%d,%d)" % (nb, r))
+    return None
+
+
+def A8(ctx, parts=None, cases=None):
+    """pairwise equivalence of the two kernel families: the five per-block subroutines on the same symbolic block and
+    carry, and the slice drivers (ndjson flag symbolic) on the same symbolic message, index state and carries"""
+    parts = list(parts or ["A1", "A2", "A3", "A4", "A5", "A7"])
+    ctx.assume("A8: both families run on the same symbolic inputs; equality of every output (masks, carries, error_mask, "
+               "index-buffer appends, index/carried/position, processed). Inductive in the carry => every input length.")
+    verdicts = []
+    for key in parts:
+        if key in SUBS:
+            verdicts.append(_a8_sub(ctx, key))
+            continue
+        INDEX_SIZE, LIMIT = go_consts()
+        cs = cases or [(nb, r) for nb in (0, 1, 2) for r in tails_for(ctx)]
+        L = LemmaRun(ctx, "A8.A7[%s]" % ",".join("%d+%d" % c for c in cs[:3]) + ("..." if len(cs) > 3 else ""),
+                     bound="slice drivers: blocks in %s x tails %s; any carry-in; index < %d; ndjson symbolic"
+                           % (sorted(set(b for b, _ in cs)), _ranges(sorted(set(r for _, r in cs))), LIMIT))
+        ctx.assume("A8.A7: callees are uninterpreted functions shared by both families (justified by A8.A1–A8.A5 incl. the register "
+                   "contracts; __flatten_bits_incremental is the same code for both), index-buffer contents compared as the "
+                   "sequence of flatten_bits calls")
+        ctx.stubs.add("A7/A8: CALL __find_* / __flatten_bits_incremental = summaries justified by A1–A6 (A8: by the pairwise subroutine equivalences)")
+        done = False
+        for nb, r in cs:
+            bad = _a8_case(L, nb, r, LIMIT, UFProvider())
+            if bad is None:
+                continue
+            bad2 = _a8_case(L, nb, r, LIMIT, RefProvider())
+            if bad2 is None:
+                L.notes.append("case (%d,%d): differs with uninterpreted callees (%s) but equal with the references instantiated" % (nb, r, bad[0]))
+                continue
+            what, mdl, S, o = bad2
+            q = S.model_request(mdl, "avx2")
             if o is not None:
-                q = S.model_request(mdl, family)
-                if o.kind == "bounds":
-                    # an out-of-bounds access cannot be observed by a functional replay: report with the witness request
-                    ctx.sample({"lemma": L.name, "bounds_violation": o.what, "request": _jsonable(q)})
-                    L.verdict = "sat"
-                    ctx.report_violation("%s: memory-safety obligation fails (%d blocks + tail %d): %s (not replayable as a functional "
-                                         "difference; the access is outside the extent the Go callers guarantee)" % (L.name, nb, r, o.what),
-                                         {"request": _jsonable(q)})
-                    return L.finish()
-                raise Inconclusive("%s: summary precondition fails: %s" % (L.name, o.what))
+                raise Inconclusive("A8: obligation fails while running the drivers: %s" % what)
+            L.violation(what, {"request": _jsonable(q)}, lambda w: replay_pair(q))
+            done = True
+            break
+        verdicts.append(L.finish())
+    return verdicts
+
+
+# ---------------------------------------------------------------------------------------------------------------
+# A9 (thorough): inlined single-block step vs monolithic REF-SCAN
+
+def A9(ctx, family="avx2", timeout_s=600):
+    """_find_structural_bits[_avx512] with all four callees inlined, against the direct per-position recurrence"""
+    L = LemmaRun(ctx, "A9(%s)" % family, bound="one 64-byte block, any carry-in, monolithic (no cut points); solver limit %ds" % timeout_s)
+    ex, prog = L.ex, L.prog
+    ex.timeout_ms = timeout_s * 1000
+    x5 = family == "avx512"
+    st = fresh_state()
+    B = refs.block_bytes()
+    buf = st.add_region("buf", 64, writable=False, default="none", data=B)
+    esc0, inq0, pp0, E = z3.Bool("esc0"), z3.Bool("inq0"), z3.Bool("pp0"), z3.BitVec("error_mask0", 64)
+    c = lambda n, v: BV(st.cell(n, v), 64)
+    esc, piq, em, pp = c("esc", refs.b2m(esc0)), c("piq", refs.b2all(inq0)), c("em", E), c("pp", refs.b2m(pp0))
+    sin = c("st_in", z3.BitVec("st_init", 64))
+    if x5:
+        st.regs["k4"] = E          # the wrapper does not initialise K4 (KORQ K4,K4,K4): taken as the incoming error mask
+        set_args(st, [BV(buf.base, 64), esc, piq, em, sin, pp])
+        name, res = "_find_structural_bits_avx512", 6
+    else:
+        qb, ws = c("qb", z3.BitVec("qb_init", 64)), c("ws", z3.BitVec("ws_init", 64))
+        set_args(st, [BV(buf.base, 64), esc, piq, qb, em, ws, sin, pp])
+        name, res = "_find_structural_bits", 8
+    st.pc = prog.entry(name)
+    fins = ex.run(st)
+    if len(fins) != 1:
+        raise Inconclusive("A9: expected a single path")
+    f = fins[0]
+    L.paths = 1
+    L.reach(f, "post")
+    ref = refs.SCAN(B, esc0, inq0, pp0, z3.BoolVal(False))
+    got = {"out": get_result(f, res), "err": f.read_cell("em"), "esc": f.read_cell("esc"), "inq": f.read_cell("piq"), "pp": f.read_cell("pp")}
+    want = {"out": ref["out"], "err": E | ref["err"], "esc": refs.b2m(ref["esc"]), "inq": refs.b2all(ref["inq"]), "pp": refs.b2m(ref["pp"])}
+    for k in ("esc", "inq", "pp", "err", "out"):
+        m = L.refute(f, got[k] == want[k])
+        if m is not None:
+            q = {"op": "block", "fam": family, "buf": block_of(m, B), "a": [mval(m, esc0), M64 if mval(m, inq0) else 0, 0 if x5 else mval(m, E), mval(m, pp0)]}
+            L.violation("inlined block step: %s differs from REF-SCAN" % k, {"request": _jsonable(q)}, lambda w: replay_vs_ref(q))
+            return L.finish()
+    o, m = L.bounds(f)
+    if o is not None:
+        raise Inconclusive("A9: memory-safety obligation fails: %s" % o.what)
     return L.finish()
